@@ -154,6 +154,15 @@ func newAuthenticatedMap
   ghost local vhopt Int       -- the option made last (ghost)
   ghost before call WithValueHasher: assert arg0 == nil
   ghost after call WithValueHasher: vhopt = result
+  -- every map hashes with a hasher of its own, made for it here (a hash.Hash has state: maps that share one cannot be
+  -- used side by side, not even each from a single goroutine)
+  ghost local hasher Int
+  ghost local made Bool
+  ghost at entry: made = false
+  ghost after call New: hasher = result
+  ghost after call New: made = true
+  ghost before call ImportSparseMerkleTrie: assert made && arg1 == hasher
+  ghost before call NewSparseMerkleTrie: assert made && arg1 == hasher
   ghost before call ImportSparseMerkleTrie: assert len(arg3) == 1 && arg3[0] == vhopt
   ghost before call NewSparseMerkleTrie: assert len(arg2) == 1 && arg2[0] == vhopt
   ghost before call KVStore.WithExtendedRealm #1: assert arg0 == store && len(arg1) == 1 && arg1[0] == prefixRawKeysStorage
